@@ -62,7 +62,9 @@ def tensor_cases(ctx):
 
 def where(c):
     halo = "halo" if (c.get("pre") or c.get("post")) else "nohalo"
-    return f"{c['kind']}:{halo}:{'rel' if c.get('rel') else 'abs'}:sd{c.get('sdepth', 0)}"
+    from .c09 import classify_tree
+    ghost = ":ghost" if classify_tree(c["tree"]) == "ghost" else ""          # stored elements without content below the split rank: class of the known finding
+    return f"{c['kind']}:{halo}:{'rel' if c.get('rel') else 'abs'}:sd{c.get('sdepth', 0)}{ghost}"
 
 
 def run(ctx):
